@@ -518,6 +518,33 @@ func checkC15(c *Ctx, r *Report) {
 			}
 		case strings.HasPrefix(rule, "confined:"):
 			allowed := strings.Split(strings.TrimPrefix(rule, "confined:"), ",")
+			// a helper that is called from owner functions only (and from nowhere else) runs in the owner's context
+			owner := map[string]bool{}
+			for _, al := range allowed {
+				owner[al] = true
+			}
+			for changed := true; changed; {
+				changed = false
+				for _, a := range as {
+					if owner[fnKey(a.fn)] {
+						continue
+					}
+					cs := li.Callers[a.fn]
+					all := len(cs) > 0
+					for _, site := range cs {
+						if site.in.Parent() == nil || !owner[fnKey(site.in.Parent())] {
+							all = false
+						}
+						if _, isGo := site.in.(*ssa.Go); isGo {
+							all = false
+						}
+					}
+					if all {
+						owner[fnKey(a.fn)] = true
+						changed = true
+					}
+				}
+			}
 			var bad []string
 			n := 0
 			for _, a := range as {
@@ -525,7 +552,7 @@ func checkC15(c *Ctx, r *Report) {
 					continue
 				}
 				n++
-				ok := false
+				ok := owner[fnKey(a.fn)]
 				for _, al := range allowed {
 					if fnKey(a.fn) == al {
 						ok = true
